@@ -207,6 +207,39 @@ PROPS["C16"] = dict(
     design_ref="DESIGN.md section 4, C16",
 )
 
+PROPS["C08"] = dict(
+    level="proof",
+    verus=["c08_wire", "c08_wiring", "c08_shape"],
+    labels=["C08."] + MASK,
+    kani=[KaniSet("src/data_format/v0.rs", "c08_wire.rs", [
+        Harness("c08_wire_scalars", "C08.wire.scalars_twin", "C", "mask (2^32), id (2^64) and both domain unions fully symbolic through the real From impls; loop-free"),
+    ])],
+    trusted=["serde / rmp-serde: a struct is written as the array of its fields and read back position by position (wire step)",
+             "NetworkFilterList <-> v0 list form: per-rule conversion applied to every bucket (views equal)",
+             "LegacyHostnameRuleDb conversions both ways (Entry API, HashMap::into_iter): NOT under contract - in particular scriptlet permissions are rebuilt as default there",
+             "Option::or (assume_specification)"],
+    assumptions=["rules are well-formed: a modifier value belongs to a redirect / csp / removeparam rule (parser)"],
+    level_text="Verus proves, for all field values, that a rule survives NetworkFilter -> v0 serialize struct -> (position-wise wire) -> v0 deserialize struct -> NetworkFilter field by field; that the "
+               "Serialize and Deserialize structs list the same fields in the same order (computed from the struct text each run); and that every component of the blocker and the cosmetic cache is wired to the "
+               "field of the same name in both directions",
+    level_note="two known findings (removeparam is not on the wire); the legacy cosmetic rule db conversion is trusted",
+    design_ref="DESIGN.md section 4, C08",
+)
+
+PROPS["C09"] = dict(
+    level="proof",
+    verus=["c09_order", "c08_shape"],
+    labels=["C09."] + MASK,
+    kani=[],
+    trusted=["slice::sort_by_key sorts by the key and permutes (R6 lift)", "apply_optimisation regroups through a HashMap (uninterpreted)",
+             "insert_dup keeps buckets sorted by id (Entry API + binary_search_by closure: outside the subset) - NOT under contract",
+             "stabilize_hash{set,map}_serialization (BTreeMap / serde generics), unseeded seahash, rmp encoding: dependencies"],
+    assumptions=[],
+    level_text="Verus proves that the rules of a bucket are re-sorted by id after fusion whatever the regrouping order was, and (computed from the struct text each run) that every HashMap/HashSet field that is serialized carries a stabilize_* ordered-view serializer",
+    level_note="partial: byte-level determinism across processes and the reload fixpoint depend on serde/rmp/BTreeMap behaviour, which no contract here can reach",
+    design_ref="DESIGN.md section 4, C09",
+)
+
 for _p in PROPS.values():
     _p.setdefault("technique", TECH)
     _p.setdefault("explanation", "")
